@@ -496,6 +496,18 @@ func genOuter(t *rapid.T, b *builder, c *Case, leaves []compInfo, elem, shape st
 	if rapid.Bool().Draw(t, "outer-static-title") {
 		o.static, o.title = true, KV{K: inner.title(), V: "TI"}
 	}
+	// the include itself may sit in a loop of k3: one inner instance per item, props and supplied
+	// content depend on the iteration
+	incLoop := rapid.IntRange(0, 3).Draw(t, "outer-inc-in-loop") == 0
+	if incLoop {
+		o.scope = append([]sv{{"ce3", elem, true}, {"ci3", "i", true}}, scope...)
+		o.static, o.num = false, "ci3"
+		if elem == "m" {
+			o.title, o.rec = KV{K: inner.title(), V: "ce3.name"}, "ce3"
+		} else {
+			o.title = KV{K: inner.title(), V: "ce3"}
+		}
+	}
 	inc := b.include(inner, o, genPlans(t, inner, true), ex, rec)
 	// Names that no supply ended up forwarding do not exist as slots of k3.
 	have := map[string]int{}
@@ -529,6 +541,14 @@ func genOuter(t *rapid.T, b *builder, c *Case, leaves []compInfo, elem, shape st
 			k3.innerOpen = append(k3.innerOpen, name)
 		}
 	}
-	c.Comps[k3.file] = b.leaf(k3, uses, fm, []Node{inc}, shape)
+	body := []Node{inc}
+	if incLoop {
+		for _, f := range fwd {
+			k3.multi[f] = true
+		}
+		body = []Node{{K: "el", Tag: "ul", M: b.id("k3U"), Kids: []Node{
+			{K: "el", Tag: "li", M: b.id("k3I"), For: &For{Idx: "ci3", Item: "ce3", List: k3.items()}, Kids: []Node{inc}}}}}
+	}
+	c.Comps[k3.file] = b.leaf(k3, uses, fm, body, shape)
 	return k3
 }
